@@ -13,6 +13,10 @@ through local assignments (flow-insensitive: every definition of a local counts)
 `return` expressions with the arguments bound to the parameters.  The result is a *set* of terms.
 
 `basename(term)` / `dirname(term)` are defined only where the constant structure decides them.
+
+Family policy: this is a def-use / value-flow summary (DESIGN E4), not an interpreter - all definitions of a name are
+unioned regardless of order, no statement sequence, loop or branch is evaluated, parameters stay opaque leaves unless a
+call site's argument expression is substituted; only constant string structure is folded (policy item (a)).
 """
 from __future__ import annotations
 
